@@ -4,23 +4,27 @@ Import ListNotations.
 From SAV.orm Require Import WeakRef WeakRefBase WeakRefInv.
 
 Definition akey (a : dbact) : option N :=
-  match a with ANone => None | AIns k _ => Some k | AUpd k _ => Some k | ADel k => Some k end.
+  match a with ANone => None | AIns k _ => Some k | AUpd k _ _ => Some k | ADel k => Some k end.
 Definition keys (acts : list dbact) : list N :=
   flat_map (fun a => match akey a with Some k => [k] | None => [] end) acts.
 Definition run_acts (acts : list dbact) (df : dbt * bool) : dbt * bool :=
   fold_left (fun df a => apply_act a df) acts df.
 Definition pre (a : dbact) (d : dbt) : Prop :=
-  match a with AIns k _ => db_get k d = None | AUpd k _ => db_get k d <> None | _ => True end.
-Definition post (a : dbact) (d : dbt) : Prop :=
+  match a with AIns k _ => db_get k d = None | AUpd k _ _ => db_get k d <> None | _ => True end.
+(* what a statement makes of the row with its key *)
+Definition eff (a : dbact) (old : option row) : option row :=
   match a with
-  | AIns k v => db_get k d = Some v | AUpd k v => db_get k d = Some v | ADel k => db_get k d = None | ANone => True
+  | ANone => old
+  | AIns _ r => Some r
+  | AUpd _ v w => match old with Some o => Some (merge v w o) | None => None end
+  | ADel _ => None
   end.
 
 Lemma apply_other : forall a d f k, akey a <> Some k -> db_get k (fst (apply_act a (d, f))) = db_get k d.
 Proof.
-  intros a d f k H. destruct a as [|k' v|k' v|k']; simpl in *; auto.
+  intros a d f k H. destruct a as [|k' v|k' v w|k']; simpl in *; auto.
   - destruct (db_has k' d); simpl; auto. apply db_get_set_other. congruence.
-  - destruct (db_has k' d); simpl; auto. apply db_get_set_other. congruence.
+  - destruct (db_get k' d); simpl; auto. apply db_get_set_other. congruence.
   - apply db_get_del_other. congruence.
 Qed.
 Lemma run_acts_cons : forall a acts df, run_acts (a :: acts) df = run_acts acts (apply_act a df).
@@ -34,23 +38,24 @@ Proof.
   replace d1 with (fst (apply_act a (d, f))) by (rewrite E; reflexivity).
   apply apply_other. apply H. left. reflexivity.
 Qed.
-Lemma apply_pre : forall a d f, pre a d -> snd (apply_act a (d, f)) = f /\ post a (fst (apply_act a (d, f))).
+Lemma apply_pre : forall a d f, pre a d -> snd (apply_act a (d, f)) = f /\
+  forall k, akey a = Some k -> db_get k (fst (apply_act a (d, f))) = eff a (db_get k d).
 Proof.
-  intros a d f P. destruct a as [|k v|k v|k]; simpl in *; auto.
-  - unfold db_has. rewrite P. simpl. split; auto. apply db_get_set_same.
-  - unfold db_has. destruct (db_get k d) eqn:E; [|contradiction]. simpl. split; auto. apply db_get_set_same.
-  - split; auto. apply db_get_del_same.
+  intros a d f P. destruct a as [|k v|k v w|k]; simpl in *.
+  - split; [reflexivity|intros; discriminate].
+  - unfold db_has. rewrite P. simpl. split; auto. intros k' E. inversion E. subst. apply db_get_set_same.
+  - destruct (db_get k d) eqn:E; [|contradiction]. simpl. split; auto. intros k' E'. inversion E'. subst.
+    rewrite E. apply db_get_set_same.
+  - split; auto. intros k' E. inversion E. subst. apply db_get_del_same.
 Qed.
 Lemma in_keys : forall a acts k, In a acts -> akey a = Some k -> In k (keys acts).
 Proof.
   intros a acts k H E. unfold keys. apply in_flat_map. exists a. split; auto. rewrite E. left. reflexivity.
 Qed.
-Lemma post_stable : forall a d d', match akey a with Some k => db_get k d' = db_get k d | None => True end ->
-  post a d -> post a d'.
-Proof. intros a d d' H P. destruct a; simpl in *; auto; congruence. Qed.
 
 Lemma run_ok : forall acts d f, NoDup (keys acts) -> (forall a, In a acts -> pre a d) ->
-  snd (run_acts acts (d, f)) = f /\ forall a, In a acts -> post a (fst (run_acts acts (d, f))).
+  snd (run_acts acts (d, f)) = f /\
+  forall a, In a acts -> forall k, akey a = Some k -> db_get k (fst (run_acts acts (d, f))) = eff a (db_get k d).
 Proof.
   induction acts as [|a acts IH]; intros d f ND P; [split; auto; intros a []|]. rewrite run_acts_cons.
   destruct (apply_pre a d f (P a (or_introl eq_refl))) as [Ef Po].
@@ -59,17 +64,17 @@ Proof.
   { unfold keys in *. simpl in ND. destruct (akey a); auto. simpl in ND. inversion ND; auto. }
   assert (Fresh : forall k, akey a = Some k -> ~ In k (keys acts)).
   { intros k Ek. unfold keys in *. simpl in ND. rewrite Ek in ND. simpl in ND. inversion ND; auto. }
+  assert (K : forall a' k, In a' acts -> akey a' = Some k -> db_get k d1 = db_get k d).
+  { intros a' k H' Ek. replace d1 with (fst (apply_act a (d, f))) by (rewrite E; reflexivity).
+    apply apply_other. intro Ea. apply (Fresh k Ea). apply (in_keys a' acts k H' Ek). }
   assert (P' : forall a', In a' acts -> pre a' d1).
   { intros a' H'. assert (Pa := P a' (or_intror H')).
-    assert (K : forall k, akey a' = Some k -> db_get k d1 = db_get k d).
-    { intros k Ek. replace d1 with (fst (apply_act a (d, f))) by (rewrite E; reflexivity).
-      apply apply_other. intro Ea. apply (Fresh k Ea). apply (in_keys a' acts k H' Ek). }
-    destruct a'; simpl in *; auto; rewrite (K k eq_refl); auto. }
+    destruct a'; simpl in *; auto; rewrite (K _ k H' eq_refl); auto. }
   destruct (IH d1 f ND' P') as [Ef Po']. split; auto.
-  intros a' [H|H]; auto. subst a'.
-  apply (post_stable a d1); auto.
-  destruct (akey a) as [k|] eqn:Ek; auto.
-  apply run_other. intros a' H' Ea. apply (Fresh k eq_refl). apply (in_keys a' acts k H' Ea).
+  intros a' [H|H] k Ek.
+  - subst a'. rewrite run_other; [apply Po; auto|].
+    intros a' H' Ea. apply (Fresh k Ek). apply (in_keys a' acts k H' Ea).
+  - rewrite (Po' a' H k Ek). rewrite (K a' k H Ek). reflexivity.
 Qed.
 
 Lemma keys_map_nodup : forall (g : nat -> dbact) (l : list nat), NoDup l ->
@@ -99,7 +104,7 @@ Proof.
   destruct (in_del ob) eqn:D; [simpl in E; inversion E; auto|].
   destruct (in_new ob) eqn:N; [simpl in E; inversion E; auto|].
   destruct (in_mod ob && in_map ob) eqn:M; [|discriminate].
-  apply andb_prop in M. destruct M as [_ M]. destruct (pend ob); simpl in E; inversion E; auto.
+  apply andb_prop in M. destruct M as [_ M]. destruct (pend ob), (pendw ob); simpl in E; inversion E; auto.
 Qed.
 
 Lemma acts_inj : forall s, Inv s -> forall o1 o2 k,
@@ -126,13 +131,14 @@ Proof.
   unfold act_of. destruct (in_del (heap s o)) eqn:D; [exact Logic.I|].
   destruct (in_new (heap s o)) eqn:N; [simpl; apply (i_new_row s I o N)|].
   destruct (in_mod (heap s o) && in_map (heap s o)) eqn:M; [|exact Logic.I].
-  apply andb_prop in M. destruct M as [_ M]. destruct (pend (heap s o)); simpl; auto.
-  apply (i_map_row s I o M).
+  apply andb_prop in M. destruct M as [_ M].
+  destruct (pend (heap s o)), (pendw (heap s o)); simpl; auto; apply (i_map_row s I o M).
 Qed.
 
 Lemma flush_db_facts : forall s, Inv s ->
   snd (flush_db s) = false /\
-  (forall o, o < nobj s -> post (act_of (heap s o)) (fst (flush_db s))) /\
+  (forall o, o < nobj s -> forall k, akey (act_of (heap s o)) = Some k ->
+     db_get k (fst (flush_db s)) = eff (act_of (heap s o)) (db_get k (db s))) /\
   (forall k, (forall o, akey (act_of (heap s o)) <> Some k) -> db_get k (fst (flush_db s)) = db_get k (db s)).
 Proof.
   intros s I. rewrite flush_db_eq.
@@ -184,21 +190,23 @@ Proof.
   assert (Row : forall o, in_map (flush_obj (heap s o)) = true -> db_get (pk (heap s o)) d <> None).
   { intros o M. destruct (FS o) as (_ & _ & _ & C). destruct (C M) as [[M0 D0]|N0].
     - destruct (akey (act_of (heap s o))) as [k|] eqn:Ek.
-      + assert (P := Fpost o (Lt o (or_introl M0))).
-        destruct (act_key _ _ (i_ok s I o) Ek) as [Pk _].
+      + destruct (act_key _ _ (i_ok s I o) Ek) as [Pk _]. subst k.
+        rewrite (Fpost o (Lt o (or_introl M0)) _ Ek).
+        assert (R := i_map_row s I o M0).
         unfold act_of in *. rewrite D0 in *.
-        destruct (in_new (heap s o)); [simpl in P; rewrite P; discriminate|].
+        destruct (in_new (heap s o)); [discriminate|].
         destruct (in_mod (heap s o) && in_map (heap s o)); [|discriminate].
-        destruct (pend (heap s o)); [simpl in P; rewrite P; discriminate|discriminate].
+        destruct (pend (heap s o)), (pendw (heap s o)); try discriminate;
+          simpl; destruct (db_get (pk (heap s o)) (db s)); try contradiction; discriminate.
       + rewrite Fother; [apply (i_map_row s I o M0)|].
         intros o' E'. assert (o' = o).
         { destruct (act_key _ _ (i_ok s I o') E') as [Pk [M'|N']].
           - apply (i_map_inj s I); auto.
           - exfalso. apply (i_map_row s I o M0). rewrite <- Pk. apply (i_new_row s I o' N'). }
         subst o'. congruence.
-    - assert (P := Fpost o (Lt o (or_intror N0))). unfold act_of in P.
-      destruct (okb_fields _ (i_ok s I o)) as (_ & F2 & _). destruct (F2 N0) as (_ & _ & _ & D0 & _).
-      rewrite D0, N0 in P. simpl in P. rewrite P. discriminate. }
+    - destruct (okb_fields _ (i_ok s I o)) as (_ & F2 & _). destruct (F2 N0) as (_ & _ & _ & D0 & _).
+      assert (Ek : akey (act_of (heap s o)) = Some (pk (heap s o))) by (unfold act_of; rewrite D0, N0; reflexivity).
+      rewrite (Fpost o (Lt o (or_intror N0)) _ Ek). unfold act_of. rewrite D0, N0. discriminate. }
   constructor; cbn [heap nobj slots local db next_pk next_val failed].
   - intros o L. rewrite (i_dead s I o L). reflexivity.
   - intros o. apply (FS o).
@@ -223,15 +231,16 @@ Proof.
   - rewrite (i_failed s I). reflexivity.
 Qed.
 
-(* what a flush writes: the pending value of every object that is new or persistent-and-dirty *)
-Lemma flush_writes : forall s o v, Inv s ->
-  alive (heap s o) = true -> pend (heap s o) = Some v -> in_del (heap s o) = false ->
+(* what a flush writes: the pending values of every object that is new or persistent-and-dirty *)
+Lemma flush_writes : forall s o, Inv s ->
+  alive (heap s o) = true -> has_pend (heap s o) = true -> in_del (heap s o) = false ->
   (in_new (heap s o) = true \/ in_map (heap s o) = true) ->
-  db_get (pk (heap s o)) (db (flush s)) = Some v /\ failed (flush s) = false.
+  exists r, db_get (pk (heap s o)) (db (flush s)) = Some r /\
+    (forall v, pend (heap s o) = Some v -> fst r = v) /\ (forall v, pendw (heap s o) = Some v -> snd r = v) /\
+    failed (flush s) = false.
 Proof.
-  intros s o v I A P D H.
-  assert (R := okb_pending_rooted (heap s o) (i_ok s I o) A).
-  unfold has_pend in R. rewrite P in R. specialize (R eq_refl).
+  intros s o I A P D H.
+  assert (R := okb_pending_rooted (heap s o) (i_ok s I o) A P).
   assert (H' : in_new (heap s o) || in_map (heap s o) = true) by (destruct H as [H|H]; rewrite H; auto using orb_true_r).
   specialize (R H'). clear H'.
   assert (W : has_work s = true).
@@ -241,11 +250,20 @@ Proof.
       apply andb_prop in R. destruct R as [_ R]. rewrite R. repeat rewrite orb_true_r. reflexivity. }
   unfold flush. rewrite W.
   destruct (flush_db_facts s I) as (Ff & Fpost & _).
-  destruct (flush_db s) as [d f] eqn:E. simpl in *. subst f. rewrite (i_failed s I). split; auto.
-  assert (Po := Fpost o (alive_lt s o I A)). unfold act_of in Po. rewrite D, P in Po.
+  destruct (flush_db s) as [d f] eqn:E. simpl in *. subst f. rewrite (i_failed s I).
+  assert (Po := Fpost o (alive_lt s o I A)). unfold act_of in Po. rewrite D in Po.
+  unfold has_pend in P.
   apply orb_true_iff in R. destruct R as [R|R].
-  - rewrite R in Po. exact Po.
-  - destruct (in_new (heap s o)); [exact Po|].
-    apply andb_prop in R. destruct R as [R R3]. apply andb_prop in R. destruct R as [R1 R2].
-    rewrite R2, R3 in Po. exact Po.
+  - rewrite R in Po. rewrite (Po _ eq_refl). simpl. eexists; split; [reflexivity|].
+    repeat split; simpl; intros v Ev; rewrite Ev; reflexivity.
+  - apply andb_prop in R. destruct R as [R R3]. apply andb_prop in R. destruct R as [R1 R2].
+    assert (Row := i_map_row s I o R2).
+    destruct (in_new (heap s o)).
+    + rewrite (Po _ eq_refl). simpl. eexists; split; [reflexivity|].
+      repeat split; simpl; intros v Ev; rewrite Ev; reflexivity.
+    + rewrite R2, R3 in Po. simpl in Po.
+      destruct (db_get (pk (heap s o)) (db s)) as [old|] eqn:G; [|contradiction].
+      destruct (pend (heap s o)) as [v1|] eqn:E1; destruct (pendw (heap s o)) as [v2|] eqn:E2; try discriminate;
+        rewrite (Po _ eq_refl); simpl; rewrite G; eexists; (split; [reflexivity|]);
+        repeat split; simpl; intros v Ev; inversion Ev; reflexivity.
 Qed.
